@@ -25,10 +25,11 @@ EXTENDS BoolFn, TLC
 CONSTANT Ord                     \* Ord[level] = variable, a permutation of Vars (1-based levels)
 
 AllOnes == Pow2(NV) - 1
-IsNeg(f) == AllOnes \notin f
 IsTrue(f) == f = TrueFn
 IsFalse(f) == f = FalseFn
 IsConstF(f) == IsTrue(f) \/ IsFalse(f)
+(* as coded: BddPtr::is_neg is false for BOTH constants (PtrFalse is its own variant, not a complemented PtrTrue) *)
+IsNeg(f) == ~IsConstF(f) /\ AllOnes \notin f
 Level(v) == CHOOSE i \in 1 .. NV : Ord[i] = v
 Top(f) == Ord[CHOOSE i \in 1 .. NV : DependsOn(f, Ord[i]) /\ \A j \in 1 .. (i - 1) : ~DependsOn(f, Ord[j])]
 (* the closure `o` of ite_helper: constants come first, otherwise compare the levels of the top variables *)
